@@ -38,19 +38,34 @@ def mix(*bits):
     return ('m', s) if s else 0
 
 
-def _is_buffer(n, adt):
-    """as_ref/as_mut(self.buffer) possibly behind refs/derefs"""
-    n = strip(_drop_partial_defs(n))
-    while n[0] in ('ref', 'deref', 'after') and len(n) >= 2:
+def _is_buffer(n, adt, depth=0):
+    """as_ref/as_mut(self.buffer) possibly behind refs/derefs.  `after(x, call)` is the same place after a call
+    that may have written through it; a phi is the buffer when one alternative is and the others are only
+    partial definitions (element stores) or such clobbered versions of a local reference."""
+    if depth > 12:
+        return False
+    n = strip(n)
+    while n[0] in ('ref', 'deref') and len(n) >= 2:
         n = strip(n[1])
+    if n[0] == 'after':
+        return _is_buffer(n[1], adt, depth + 1)
+    if n[0] == 'phi':
+        yes = 0
+        for a in n[1]:
+            a0 = strip(a)
+            if a0 == ('opaque', 'partial-def'):
+                continue
+            if _is_buffer(a0, adt, depth + 1):
+                yes += 1
+                continue
+            if a0[0] == 'after' and strip(a0[1])[0] == 'field' and strip(a0[1])[1][0] == 'local' and not strip(a0[1])[2]:
+                continue
+            return False
+        return yes > 0
     if n[0] == 'field' and n[2] and n[2][-1][0] == 'f' and n[2][-1][1] == 'buffer':
         return True       # strip() already looked through as_ref
     if n[0] == 'call' and n[1].rsplit('::', 1)[-1] in ('as_ref', 'as_mut') and len(n[2]) == 1:
-        a = strip(n[2][0])
-        while a[0] in ('ref', 'deref') and len(a) >= 2:
-            a = strip(a[1])
-        if a[0] == 'field' and a[2] and a[2][-1][0] == 'f' and a[2][-1][1] == 'buffer':
-            return True
+        return _is_buffer(n[2][0], adt, depth + 1)
     return False
 
 
@@ -282,7 +297,7 @@ def getter_bits(F, body, adt):
     return ev.ev(r, w)
 
 
-def setter_stores(F, body, adt, only_blocks=None, sub_hook=None):
+def setter_stores(F, body, adt, only_blocks=None, sub_hook=None, ignore_calls=()):
     """dict byte -> stored bits, for a setter whose stores are element stores / write_uN on constant ranges.
     Raises Undecided on anything else that touches the buffer."""
     og = F.origin
@@ -353,7 +368,7 @@ def setter_stores(F, body, adt, only_blocks=None, sub_hook=None):
                 dst = og.operand(body, args[0], bi, si) if args else None
                 if dst is not None and 'buffer' in show(strip(dst)):
                     raise Undecided('bulk store')
-            elif nm.startswith('wire::') and '::set_' in nm:
+            elif nm.startswith('wire::') and '::set_' in nm and nm not in ignore_calls:
                 raise Undecided('delegates to another setter')
     if not touched:
         raise Undecided('no store found')
